@@ -37,6 +37,17 @@ pub fn run(ctx: &Ctx, rep: &mut Report) {
                 let v = reuse.clone().unwrap();
                 (format!("clo = (arg) => {{a: if arg > 0 then do {{\n  {} = 1\n  return {}\n}} else 0, b: {} + arg, c: [1] via ({} => {} + 1), d: {}}}", v, v, v, v, v, v), "clo(41)".to_string())
             }
+            4 if reuse.is_some() && i % 16 >= 8 => {
+                let v = reuse.clone().unwrap();
+                let form = *rng.pick(&[
+                    "clo = (arg) => [[1, 2] via (V => V * 2), V]",
+                    "clo = (arg) => {m: map([arg], (V, i) => V + i), after: V}",
+                    "clo = (arg) => [sort_by([2, 1], V => -V), reduce([1], (acc, V) => acc + V, 0), V + arg]",
+                    "clo = (arg) => [((V) => V + 1)(arg), V]",
+                    "clo = (arg) => [(V => (W => V + W))(1)(2), V, arg]",
+                ]);
+                (form.replace('V', &v), "clo(41)".to_string())
+            }
             7 if reuse.is_some() => {
                 let v = reuse.clone().unwrap();
                 (format!("clo = (arg) => do {{\n  inner = do {{\n    {} = arg\n    return {} + 1\n  }}\n  return [inner, {}, {}]\n}}", v, v, v, body), "clo(41)".to_string())
@@ -50,7 +61,7 @@ pub fn run(ctx: &Ctx, rep: &mut Report) {
         let mut names: Vec<String> = nums.clone();
         names.push("local".into());
         names.push("arg".into());
-        let shadow = if i % 8 >= 5 && reuse.is_some() { reuse.clone().unwrap() } else if names.is_empty() { "zz".to_string() } else { rng.pick(&names).clone() };
+        let shadow = if (i % 8 >= 5 || (i % 8 == 4 && i % 16 >= 8)) && reuse.is_some() { reuse.clone().unwrap() } else if names.is_empty() { "zz".to_string() } else { rng.pick(&names).clone() };
         check_contexts(&mut model, rep, &prefix, &def, &call, &shadow, i);
     }
 
